@@ -6,6 +6,8 @@ behaviour of the readers: 0-d `float64` arrays), so values are compared by numer
 `none`, a scalar, or a sample vector of length ≥ 2 in order.
 -/
 import Bermuda.Model.Frame
+import Bermuda.Model.FrameRich
+import Bermuda.Model.FrameStatics
 namespace Bermuda.Spec.C14
 open Bermuda Bermuda.Frame
 
@@ -75,6 +77,160 @@ def rowCountSpec (long : Bool) (t : List Cell) (n : Nat) : Bool :=
 
 /-- array frame / matrix round trips: same cells, numbers as floats -/
 def backSpec (t out : List Cell) : Bool := sameNumeric out t
+
+
+/-! ## Rich matrix (`io/rich_matrix.py`) -/
+
+/-- what comes back for a stored cell value: `None` nothing, a size-1 array its `float`, every other
+number or array itself (Python kind, dtype and shape kept — the object array stores the objects) -/
+def backVal : Val → Option Val
+  | .none => none
+  | .arr _ _ [q] => some (.flt q)
+  | v => some v
+
+/-- the values of a cell that come back: the index fields (in index order) that have a value -/
+def backValues (fields : List String) (c : Cell) : Dict Val :=
+  fields.filterMap fun f => ((Dict.get? c.values f).bind backVal).map fun v => (f, v)
+
+/-- the cell that comes back for `c` (none when no field of the index has a value in it) -/
+def richBack (fields : List String) (c : Cell) : Option Cell :=
+  match backValues fields c with
+  | [] => none
+  | vs => some { c with kind := typedKind c.kind, values := vs }
+
+/-- rich matrix round trip: exactly the cells of the original that hold a value of an index field,
+in the same order, same coordinates / class / slice metadata, values as above -/
+def richSpec (fields : List String) (t out : List Cell) : Bool := out == t.filterMap (richBack fields)
+
+/-- the position of a cell on the grid of an index, by plain month arithmetic (independent of
+`MatrixIndex.resolve_indices`): slice number, period number, development number -/
+def gridPos (ix : MatrixIndex) (c : Cell) : Option (Nat × Nat × Nat) :=
+  let dj := monthToId c.ps - ix.expOrigin
+  let dk := (monthToId c.ev - monthToId c.pe) - ix.devOrigin
+  let step := min ix.expResolution ix.devResolution
+  match indexOf? ix.slices c.md with
+  | some si =>
+    if ix.expResolution > 0 && step > 0 && dj ≥ 0 && dk ≥ 0 && dj % ix.expResolution == 0 && dk % step == 0
+    then some (si, (dj / ix.expResolution).toNat, (dk / step).toNat) else none
+  | none => none
+
+/-- every cell is found at its grid position: a value of an index field as a plain number /
+predicted array, `MissingValue` where the cell has some index field but not this one (or `None`),
+nothing where the cell has no index field at all -/
+def richPlacedSpec (m : RichMatrix) (t : List Cell) : Bool :=
+  let fs := List.zip (List.range m.index.fields.length) m.index.fields
+  t.all fun c => match gridPos m.index c with
+    | none => false
+    | some (si, j, k) =>
+      let covered := fs.any fun p => c.values.contains p.2
+      decide (j < m.nPeriods) && decide (k < m.nDevs) &&
+      fs.all fun p =>
+        let want := (Dict.get? c.values p.2).bind backVal
+        match m.get? (si, p.1, j, k) with
+        | some (.plain v) => want == some v && (match v with | .arr _ _ _ => false | _ => true)
+        | some (.predicted v) => want == some v && (match v with | .arr _ _ _ => true | _ => false)
+        | some (.missing _) => want == none && covered
+        | none => want == none && !covered
+        | _ => false
+
+def isValueEntry : RVal → Bool
+  | .plain _ => true | .predicted _ => true | _ => false
+
+def missingId? : RVal → Option Nat
+  | .missing id => some id | _ => none
+
+/-- … and nothing else is there: as many value entries as the cells have values of index fields, as
+many missing entries as covered cells lack index fields, numbered 0 … n-1, nothing disaggregated -/
+def richNothingElseSpec (m : RichMatrix) (t : List Cell) : Bool :=
+  let es := (m.entries m.index.fields.length).map (·.2)
+  let ids := es.filterMap missingId?
+  let nVals := (t.map fun c => (backValues m.index.fields c).length).sum
+  let nMiss := (t.map fun c =>
+    if m.index.fields.any c.values.contains then m.index.fields.length - (backValues m.index.fields c).length else 0).sum
+  (es.filter isValueEntry).length == nVals && ids.length == nMiss &&
+  (List.range nMiss).all ids.contains && es.length == nVals + nMiss
+
+/-- with periods of different lengths (the index period is their gcd) only the cells whose period is
+ONE index period come back; the others are spread as disaggregated entries and dropped on the way back -/
+def singleStep (expRes : Int) (c : Cell) : Bool := monthToId c.pe - monthToId c.ps + 1 == expRes
+
+def richMixedSpec (ix : MatrixIndex) (t out : List Cell) : Bool :=
+  out == (t.filter (singleStep ix.expResolution)).filterMap (richBack ix.fields)
+
+
+/-! ## the rest of `io/array.py`: statics frame, right-edge frame, array frame with all arguments -/
+
+/-- the month end that closes a period of `res` months starting in the month of `ps` -/
+def periodEndOf (ps : Date) (res : Int) : Date := idToMonth (monthToId ps + res - 1) false
+
+/-- the month end `lag` months after the month of `d` -/
+def monthEndAfter (d : Date) (lag : Int) : Date := idToMonth (monthToId d + lag) false
+
+def nonDecreasing (out : List Cell) : Bool := (out.zip out.tail).all fun p => Cell.cmp p.1 p.2 != .gt
+
+/-- statics frame (first-of-month periods): one `CumulativeCell` per row — the period of `res` months
+starting at the row's period, the common evaluation date, the row's values, the metadata —, sorted -/
+def staticsSpec (rows : List (Date × Dict Val)) (res : Int) (ev : Date) (md : Metadata) (out : List Cell) : Bool :=
+  out.length == rows.length && nonDecreasing out &&
+  rows.all fun p => out.contains
+    { kind := .cumulative, ps := p.1, pe := periodEndOf p.1 res, ev := ev, values := p.2, md := md }
+
+/-- a row of the right-edge frame by content: period start, evaluation date, the fields that hold a
+value with their numeric content (a frame column with a gap holds floats) -/
+def edgeKey (r : EdgeRow) : Date × Date × List (String × NumV) :=
+  (r.period, r.evaluation,
+   ((r.entries.filter fun kv => kv.2 != Val.none).map fun kv => (kv.1, numV kv.2)).mergeSort
+     fun a b => compare a.1 b.1 != .gt)
+
+/-- right-edge frame of a single-slice cumulative triangle: one row per period, ascending, each the
+latest evaluation of its period with that cell's values -/
+def rightEdgeSpec (t : List Cell) (rows : List EdgeRow) : Bool :=
+  let periods := (t.map fun c => (c.ps, c.pe)).eraseDups
+  rows.length == periods.length &&
+  ((rows.zip rows.tail).all fun p => Date.cmp p.1.period p.2.period != .gt) &&
+  periods.all fun p =>
+    let row := t.filter fun c => c.ps == p.1 && c.pe == p.2
+    row.any fun c => (rows.map edgeKey).contains (edgeKey (edgeRow c)) && row.all fun d => Date.cmp d.ev c.ev != .gt
+
+/-- the cells that are the latest evaluation of their period -/
+def latestCells (t : List Cell) : List Cell :=
+  t.filter fun c => t.all fun d => !(d.ps == c.ps && d.pe == c.pe) || Date.cmp d.ev c.ev != .gt
+
+/-- right-edge frame (evaluation column dropped) read back as a statics frame: the latest cell of
+every period, numbers as the frame holds them -/
+def edgeBackSpec (t out : List Cell) : Bool := sameNumeric out (latestCells t)
+
+/-- the cells an array frame stands for: per row and per column with an entry one cumulative cell;
+`lags` are the columns' development lags; `fromEnd` = lags counted from the period end (else from
+the period start) -/
+def arrayExpected (field : String) (md : Metadata) (res : Int) (fromEnd : Bool) (lags : List Int)
+    (rows : List (Date × List Val)) : List Cell :=
+  rows.flatMap fun r => (lags.zip r.2).filterMap fun lv =>
+    match lv.2 with
+    | .none => none
+    | v => some { kind := .cumulative, ps := r.1, pe := periodEndOf r.1 res,
+                  ev := if fromEnd then monthEndAfter (periodEndOf r.1 res) lv.1 else monthEndAfter r.1 (lv.1 - 1),
+                  values := [(field, v)], md := md }
+
+def sameCellSet (out want : List Cell) : Bool :=
+  out.length == want.length && nonDecreasing out &&
+  (want.map canonCell).all (out.map canonCell).contains
+
+def arrayFullSpec (field : String) (md : Metadata) (res : Int) (fromEnd : Bool) (lags : List Int)
+    (rows : List (Date × List Val)) (out : List Cell) : Bool :=
+  sameCellSet out (arrayExpected field md res fromEnd lags rows)
+
+/-- `array_triangle_builder`: the cells of all frames, cells at the same coordinates united (a field
+of a later frame wins) -/
+def unite (acc : List Cell) (c : Cell) : List Cell :=
+  if acc.any (·.coord == c.coord) then
+    acc.map fun x => if x.coord == c.coord then { x with values := x.values.union c.values } else x
+  else acc ++ [c]
+
+def builderSpec (frames : List (String × List Int × List (Date × List Val))) (md : Metadata) (res : Int)
+    (fromEnd : Bool) (out : List Cell) : Bool :=
+  sameCellSet out
+    ((frames.flatMap fun f => arrayExpected f.1 md res fromEnd f.2.1 f.2.2).foldl unite [])
 
 /-- what the group-by key of a data-frame reader has to contain so that it determines a row's
 coordinates and its full slice metadata (`$name` = the reader's local column list) -/
